@@ -657,7 +657,9 @@ func TestRequest(t *testing.T) {
 			t.Fatalf("harness: url %q: %v", c.URL, err)
 		}
 		hx.Eval()
-		hx.Class(fmt.Sprintf("req/%s/port=%s/override=%v/hdr=%d", u.Scheme, portForm, c.Host != "", c.HeaderKind))
+		hx.Class(fmt.Sprintf("req/%s/port=%s/v6=%v", u.Scheme, portForm, strings.HasPrefix(u.Host, "[")))
+		hx.Class(fmt.Sprintf("req/header-adapter=%d/extra=%d", c.HeaderKind, len(c.Extra)))
+		hx.Class(fmt.Sprintf("req/override=%v/protocols=%d/extensions=%d", c.Host != "", len(c.Req.Protocols), len(c.Req.Extensions)))
 		if len(c.Req.Protocols) > 0 || len(c.Req.Extensions) > 0 || len(c.Extra) > 0 || strings.HasPrefix(u.Host, "[") || portForm != "none" {
 			hx.NonTrivial(hx.Hash("req", u.Scheme, strings.HasPrefix(u.Host, "["), portForm, len(c.Req.Protocols), len(c.Req.Extensions), c.HeaderKind, len(c.Extra), c.Host != "", c.WBuf),
 				func() interface{} { return reqCase{Dialer: c} })
